@@ -95,7 +95,9 @@ class C13(Prop):
         exp_steps = (None, 1024)[s.weighted((2, 1), "exp")]
         expiration = None if exp_steps is None else exp_steps * GRID
         callers = [{"key": s.draw(n_keys, "key")} for _ in range(n_callers)]
-        inv_specs = [{"held": bool(s.draw(2, "held")), "raises": s.chance(1, 5, "inv-raises")}
+        inv_specs = [{"held": bool(s.draw(2, "held")), "raises": s.chance(1, 5, "inv-raises"),
+                      # the invocation may end cancelled by itself (something it awaited was cancelled)
+                      "self_cancel": s.chance(1, 8, "inv-self-cancel")}
                      for _ in range(n_callers + 2)]
         jumps = []
         if exp_steps is not None:
@@ -136,6 +138,9 @@ class C13(Prop):
                 finally:
                     rec["done"] = True
                 sim.event("invocation-end", n)
+                if spec["self_cancel"]:
+                    rec["self_cancelled"] = True
+                    raise asyncio.CancelledError()
                 if rec["raises"]:
                     raise rec["exc"]
                 return rec["result"]
@@ -311,6 +316,10 @@ class C13(Prop):
                 if o["kind"] != "cancelled":
                     sim.fail_post("cancel-swallowed", f"caller {c} was cancelled while waiting but ended with {o['kind']} {o['obj']!r}")
                     return
+                continue
+            if o["kind"] == "cancelled" and o["expected"] is not None and invs[o["expected"]].get("self_cancelled"):
+                continue  # the shared invocation itself ended cancelled: that is its outcome for everybody
+            if o["kind"] == "cancelled" and o["expected"] is None and any(r.get("self_cancelled") and r["key"] == callers[c]["key"] for r in invs):
                 continue
             if o["kind"] == "cancelled":
                 sim.fail_post("cancel-leaked", f"caller {c} was never cancelled but received CancelledError "
